@@ -38,6 +38,12 @@ func hostileExec(c *Ctx, op string) {
 	os.WriteFile(filepath.Join(victim, "passwd"), []byte("root:x:0:0"), 0644)
 	os.Mkdir(filepath.Join(victim, "dir"), 0755)
 	os.WriteFile(filepath.Join(sandbox, "neighbour"), []byte("n"), 0600)
+	// neighbours whose names derive from the target's: nothing next to the target is rio's to use
+	for _, sib := range []string{"target.old", "target.bak", "target.tmp", "target~", ".target.tmp", "target.new", ".tmp.target"} {
+		os.MkdirAll(filepath.Join(sandbox, sib, "sub"), 0755)
+		os.WriteFile(filepath.Join(sandbox, sib, "precious"), []byte(sib), 0644)
+		os.WriteFile(filepath.Join(sandbox, sib, "sub", "more"), []byte("m"), 0600)
+	}
 	os.Setenv("RIO_CACHE", filepath.Join(base, "cache"))
 	os.Setenv("RIO_BASE", filepath.Join(base, "riobase"))
 	switch pre {
@@ -351,6 +357,12 @@ func hostileEngine(c *Ctx) {
 		{dir("./"), lnk("a", "b", 0777, 0), lnk("b", "@V@", 0777, 0), file("a/pwned")},
 		{dir("./"), RawHdr{Name: "hl", Typeflag: '1', Link: "@V@/passwd"}},
 		{lnk("x/..", "@V@", 0777, 0), file("pwned")},
+		// an entry that is not a directory bearing the name of a directory already there (a/b makes a; then a link, a pipe,
+		// a device called a): mklink / mknod answer EEXIST in shapes of their own
+		{dir("./"), file("a/b"), lnk("a", "x", 0777, 0)},
+		{dir("./"), file("a/b"), RawHdr{Name: "a", Typeflag: '6', Mode: 0644, Sec: 1e9}},
+		{dir("./"), file("a/b"), RawHdr{Name: "a", Typeflag: '3', Mode: 0600, Maj: 1, Min: 3, Sec: 1e9}},
+		{dir("./"), dir("d/"), lnk("d", "elsewhere", 0777, 0), RawHdr{Name: "d", Typeflag: '4', Mode: 0600, Maj: 8, Min: 0, Sec: 1e9}},
 		// entries that carry extended attributes: on a link to the outside, on the root link, on a file reached through a link
 		{dir("./"), RawHdr{Name: "l", Typeflag: '2', Link: "@V@/passwd", Mode: 0777, Sec: 1e9, Xattrs: map[string]string{"user.pwned": "1"}}},
 		{dir("./"), RawHdr{Name: "l", Typeflag: '2', Link: "../victim/dir", Mode: 0777, Sec: 1e9, Xattrs: map[string]string{"user.pwned": "1", "trusted.overlay.opaque": "y"}}},
